@@ -217,6 +217,6 @@ def floors(mon, ctx):
     mon.floor("runs with an odd worker count", mon.counters["runs_with_odd_worker_count"], 10)
     mon.floor("runs with generator items", mon.counters["runs_with_generator_items"], 10)
     mon.floor("item kinds x (list, generator)", len(mon.classes["item_kind"]), 8)
-    mon.floor("real spawned runs completed", mon.counters["spawned_runs_completed"], 1 if ctx.quick else 4)
+    mon.floor("real spawned runs completed", mon.counters["spawned_runs_completed"], 1)
     if ctx.thorough:
         mon.floor("distinct item->worker assignments seen in spawned runs", len(mon.classes["spawned_assignments"]), 2)
